@@ -8,7 +8,8 @@ COQ_MODULE = "Life.Model"; RUN_FN = "run"
 THEOREMS = ["C09_handler_runs_only_if_active", "C09_calls_carry_active", "C09_inert_while_down", "C09_reset_once_per_shutdown",
             "C09_restart_stages_once_at_time", "C09_old_incarnation_silent", "C09_fresh_after_restart_partial", "C09_shutdown_frame",
             "C09_delivery_independent_of_m", "C09_run_terminates", "C09_run_is_generated", "C09_first_state_is_fresh",
-            "C09_shutdown_leaves_fresh", "C09_restart_runs_first_start_callback"]
+            "C09_shutdown_leaves_fresh", "C09_restart_runs_first_start_callback", "C09_module_local", "C09_loop_is_mlog",
+            "C09_restarted_as_fresh", "C09_fresh_is_first_state"]
 QUICK_N = 2500; THOROUGH_N = 120000
 RULE = ("scripts = 2..4 scripted modules on a ring (gate out -> next module, gate far -> transit gate of the next module -> the one after), "
         "each with handler programs selected by payload, start programs selected by incarnation, up to 3 tokio tasks (sleep / log / send / "
@@ -56,7 +57,14 @@ CLAIM = dict(
          "in such a state, and module_restart is 'set active, then the first start's at_sim_start(stage) callbacks in order with the restart "
          "time' (for one stage: literally the first start's callback). Remaining differences, by design of the code: the kept pieces, and a "
          "multi-stage restart runs all stages in one event (buffered events and shutdown requests are handled once at its end, not after "
-         "each stage as in the start-up sweep). A whole-trace comparison with a second run of a fresh module is not proved. Every run of the "
+         "each stage as in the start-up sweep). Whole-trace form for single-stage modules (C09_module_local, C09_loop_is_mlog, "
+         "C09_restarted_as_fresh), a simulation between two worlds restricted to module m: a module's records depend on its own state "
+         "only (two worlds of two scripts that agree on m produce the same records of m under the same sequence of events); the event "
+         "loop of a run is such a sequence; the restart event on a module that is 'fresh v, inactive' writes the same records as the "
+         "first start's step taken at the restart time on the newly created 'fresh v', and from then on -- every later event of m and "
+         "its at_sim_end -- the two cannot be told apart, in any environment delivering the same events. next_wakeup and surviving "
+         "JoinHandles do not influence m's records (only the event set and the final join errors); with trivial kept pieces 'fresh v' "
+         "is the module as first created (C09_fresh_is_first_state). Multi-stage modules are not covered by the whole-trace form. Every run of the "
          "model terminates (proved: C09_run_terminates), so 'no restart left over' holds unconditionally. Timer exactness is a monitor "
          "clause (computed from the log alone), not a Coq theorem; in the model it holds by construction of the differential check.",
     technique="Coq: invariants over a step relation generating every world of the run (reset => down, down => inert), an interpreter invariant "
